@@ -202,7 +202,7 @@ def build_harness(work, race=False, groups=("main",)):
 
 # ------------------------------------------------------------------ TLC
 def tlc_cmd(module, cfg, metadir, workers=1, xmx="3g", extra=()):
-    return ["java", "-Xss1g", "-Xmx" + xmx, "-XX:+UseParallelGC", "-XX:ParallelGCThreads=2", "-cp", TLC_CP, "tlc2.TLC",
+    return ["java", "-Djava.io.tmpdir=" + os.environ.get("TLC_TMPDIR", "/tmp"), "-Xss1g", "-Xmx" + xmx, "-XX:+UseParallelGC", "-XX:ParallelGCThreads=2", "-cp", TLC_CP, "tlc2.TLC",
             "-workers", str(workers), "-metadir", metadir, "-config", cfg] + list(extra) + [module]
 
 
@@ -858,6 +858,7 @@ def main(argv):
     prop = a.prop
     if a.selftest:
         work = tempfile.mkdtemp(prefix="verif_selftest_")
+        os.environ["TLC_TMPDIR"] = work
         try:
             return selftest(work)
         except Inconclusive as e:
@@ -878,6 +879,7 @@ def main(argv):
     if not prop:
         ap.error("property id required")
     work = tempfile.mkdtemp(prefix="verif_%s_" % prop)
+    os.environ["TLC_TMPDIR"] = work  # SANY unpacks the standard modules into java.io.tmpdir on every run
     t0 = time.time()
     rc = 2
     try:
